@@ -28,7 +28,7 @@ StepIter(e) ==
        Report(e.case, r.codes,
               [ev |-> "iter", bpp |-> e.bpp, order |-> e.order, len |-> Len(e.buf),
                script |-> e.runs[k][1], step |-> r.step,
-               obs |-> IF r.step > 0 THEN e.runs[k][2][r.step] ELSE <<>>])
+               obs |-> IF r.step > 0 THEN e.runs[k][2][r.step] ELSE <<>>, bad |-> r.bad])
 \* a panic of the library is data (harness note `panicked_calls`), not a verdict of this property
 StepPanic(e) == e.ev = "panic"
 
